@@ -8,11 +8,11 @@ PROPS = {
         level="exploration",
         technique="property-based testing (rapid): generated pod-lifecycle / reconcile-order / fault histories over the real ReconcilePod and "
                   "ReconcilePodENI (incl. gcCRPodENIs, gcSecondaryENI, gcMemberENI as actions) on one controller-runtime fake client and an ECS simulator; "
-                  "oracles: phase-edge recorder on every PodENI write, call-time liveness monitor on every Detach/Delete, interface/record ledger at every step, end state after settling",
+                  "oracles: phase-edge recorder on every PodENI write, call-time liveness monitor on every Detach/Delete (record UID and pod instances a successful CNI ADD handed the interface to), a successful CNI ADD must return a record that is Bind for exactly that pod UID, interface/record ledger at every step, end state after settling",
         rule="a case = cluster config (trunk on/off, CRD mode, IP stack, network cards, apparent age of created interfaces) + 1..3 pod names with 1..2 interfaces each, a third of them without the pod-eni annotation (served only in CRD mode or on the exclusive-ENI node) "
              "(elastic / fixed TTL / fixed Never, mixed) + a history of about 20 steps (thorough 30) drawn as a shrinkable list: create/delete(terminating)/sandbox-exit/gone per pod, in a third of the histories also Node object removed / registered again (collector passes are favoured while one is missing), "
-             "with a drawn node (same name, new UID, same or other node), ReconcilePod(name), ReconcilePodENI(name), gcCR, gcSecondary, gcMember, each reconcile step with an optional "
-             "cloud fault mask (Create/Attach/Detach/Delete per interface slot, Describe, DescribeVSwitch), API fault mask (Get pod/node/record, List, Create, Update, Patch, status Update/Patch, Delete; "
+             "with a drawn node (same name, new UID, same or other node), ReconcilePod(name), ReconcilePodENI(name), gcCR, gcSecondary, gcMember, CNI ADD for the current pod instance through the real daemon-side Remote.Allocate (pkg/eni/remote.go, wait backoff shortened with backoff.OverrideBackoff), each reconcile step with an optional "
+             "cloud fault mask (Create/Attach/Detach/Delete per interface slot, Describe, DescribeVSwitch), API fault mask (Get pod/node/record, List, Create, Update, Patch, status Update/Patch, Delete, read-back failure = every Get of the record after its Create in the same step fails and the reconcile context is cancelled; "
              "internal error or conflict) and an optional action executed INSIDE the step's first cloud call (pod leaves / appears, the other controller runs, or both: pod gone + ReconcilePod while ReconcilePodENI is inside AttachNetworkInterface); cloud fault bits are drawn from the calls the step kind can issue; additionally an optional cloud outage (one call kind + interface slot fails during a window of steps) and up to 4 entries of the form: the n-th Delete/Detach call of the history fails; then faults off and 8 settle rounds. "
              "Non-trivial = the history recreates a pod under a used name, or a fault hits between interface creation and record creation (rollback runs), or a pod leaves while its record is "
              "Initial/Binding (deletion racing attachment). distinct = distinct scenario hash",
@@ -28,7 +28,7 @@ PROPS = {
         ],
         level_text="about 4000 generated histories per quick run (150000 thorough) of the two real reconcilers in every drawn order with cloud and API faults, each step checked; exploration, not proof",
         level_note="the controllers read through the same client they write (no informer-cache staleness); the two controllers run sequentially except for one drawn action nested inside a cloud call; "
-                   "work-queue retry timing, leader election, the daemon side of pkg/eni/remote.go and real ECS asynchrony are not modelled; error results after a cloud effect (timeouts) are not injected; "
+                   "work-queue retry timing, leader election, real ECS asynchrony is not modelled; the daemon side is reduced to Remote.Allocate with an idle control plane during its wait; error results after a cloud effect (timeouts) are not injected; "
                    "liveness is only checked as bounded settling (8 rounds)",
         tests=[dict(unit="c10loop", test="TestVerifC10ClosedLoop", quick=4000, thorough=150000),
                dict(unit="c10loop", test="TestVerifC10KnownDetachingFromNonBind", quick=1, thorough=1, shards=1),
